@@ -1118,7 +1118,11 @@ class Molecules:
         if self.count() == 0:
             feat = other.features
         else:
-            feat = pl.concat([self.features, other.features], how="diagonal")
+            other_feat = other.features
+            if len(other_feat.columns) == 0:
+                # no features at all: every column is missing, filled with nulls
+                other_feat = self.features.clear(other.count())
+            feat = pl.concat([self.features, other_feat], how="diagonal")
             if len(feat.columns) != len(self.features.columns):
                 extra = set(other.features.columns) - set(self.features.columns)
                 raise ValueError(
